@@ -30,6 +30,14 @@ func (d *ParserCustomData) PrepareCustomDice(p *parser) bool {
 	}
 
 	d.pendingCustomDice = match
+	if p.checkSkipCode() && match.byteLen > 0 {
+		// 前瞻(look-ahead)模式下动作不会执行，ConsumeCustomDice 不会被调用；如果这里不前移，
+		// 前瞻看到的就是一次零宽匹配，(E5)+1、[E5,2]、f(E5) 这类带前瞻保护的写法都会解析失败
+		target := match.startOffset + match.byteLen
+		for p.pt.offset < target {
+			p.read()
+		}
+	}
 	return true
 }
 
